@@ -75,7 +75,10 @@ def _options(rnd, spec):
     if r < 0.3:
         base = os.path.basename(rnd.choice(dirs)) if dirs else "util"
         # the last ones textually match names of imported EXTERNAL modules (json, logging.handlers, extlib, numpyish.linalg)
-        o["exclusions"] = rnd.choice([("*__init__.py",), ("*util*", "*/h"), ("*/" + base,), ("*/" + base, "*m0.py"), ("*_b*",), ("*handlers*",), ("*json*", "*lib*"), ("*linalg",)])
+        o["exclusions"] = rnd.choice([("*__init__.py",), ("*util*", "*/h"), ("*/" + base,), ("*/" + base, "*m0.py"), ("*_b*",), ("*handlers*",), ("*json*", "*lib*"), ("*linalg",),
+                                    # no leading star: the pattern has to match the absolute path from its first character on, so
+                                    # a name of the tree alone excludes nothing (whichever entry point is used)
+                                    (base,), (base + "*",), (base + "/m0.py", "proj*"), ("proj/" + base + "*",)])
     elif r < 0.45:
         o["exclusions"] = ()
         o["regex_exclusions"] = rnd.choice([(r".*/(a|ab)$",), (r".*/__init__\.py$",), (r".*/m\d\.py",), (r".*/util(/|$)", r".*/h\.py$")])
